@@ -20,9 +20,12 @@ fn run_labels(case: &TrainCase, run: &TrainRun, cx: &mut Ctx) {
     });
     cx.label_if(case.train.dummy, "dummy_consist");
     cx.label_if(case.train.hybrids > 0, "consist_with_hybrid_locomotive");
+    cx.label_if(case.train.late_battery, "consist_given_its_battery_units_through_set_loco_vec");
+    cx.label_if(case.train.cars.iter().any(|c| c.n == 0), "car_type_listed_with_zero_cars");
     cx.label_if(case.init_offset_extra > 0.0, "starts_further_along_the_path");
     cx.label_if(case.and_parts, "built_through_and_parts_constructor");
     cx.label_if(case.hand_assembled, "assembled_by_hand_on_the_extended_path");
+    cx.label_if(case.init_offset_abs.is_some() && run.states.last().map(|s| s.offset.value == run.offset_end).unwrap_or(false), "run_ends_with_the_front_exactly_on_the_end_of_the_path");
     cx.label_if(case.train.length_override.is_some(), "length_override");
     cx.label_if(case.train.mass_override.is_some(), "mass_override");
     cx.label_if(case.train.cars.len() > 1, "car_mix");
@@ -164,6 +167,8 @@ impl C11 {
         if !c.train.dummy && g.bool(0.25) {
             c.train.hybrids = g.usize(1, 2);
         }
+        // 20 %: the consist object first held its fuel-only units
+        c.train.late_battery = g.bool(0.2);
         c
     }
     fn check(case: &TrainCase, cx: &mut Ctx) {
